@@ -101,6 +101,15 @@ pub fn all_single_faults(cmd: u8, seed: &Value, obs: &mut Obs) -> CaseResult {
             }
             let d = format!("duplicate {}/{}", mutate::path_string(&mp), refcbor::show(&key));
             expect("duplicate-key", d, cmd, &msg_of(cmd, &v), INVALID_CBOR, obs)?;
+            // the same key twice where the FIRST occurrence holds null (for an optional member null
+            // reads as "absent", which must not make the decoder forget that it has seen the key)
+            let mut v = seed.clone();
+            if let Some(Value::Map(m)) = mutate::get_mut(&mut v, &mp) {
+                let k = m[i].0.clone();
+                m.insert(i, (k, Value::Null));
+            }
+            let d = format!("duplicate (first occurrence null) {}/{}", mutate::path_string(&mp), refcbor::show(&key));
+            expect("duplicate-key:null-first", d, cmd, &msg_of(cmd, &v), INVALID_CBOR, obs)?;
         }
     }
     // 4. + 5. every head re-encoded in each wider width; every container made indefinite
@@ -441,7 +450,7 @@ pub fn gens() -> Vec<Gen> {
     vec![G_MC, G_GA, G_CP, G_CM, G_CM41, G_LB, G_CMDBYTE, G_LACKING, G_UNKNOWN_MALFORMED, G_CONCRETE]
 }
 
-pub const RULE: &str = "Seeds: for every parameter-bearing command the minimal message (no optional member), the full message (every optional member) and proptest-generated well-formed messages from the C01 generator (known members only, canonical). Every seed is crossed with EVERY single fault of each class, enumerated on the value tree / byte string (no sampling within a seed): removal of each required parameter and required nested member -> 0x14; truncation at every byte offset -> 0x12; each key of each map duplicated -> 0x12; each head re-encoded in each wider width -> 0x12; each string/array/map made indefinite-length -> 0x12; each head given a reserved additional-information value (28..30, and 31 for integers) -> 0x12; each member's value replaced by a representative of every other data type among unsigned/negative/bytes/text/array/map/boolean (sign changes of signed-integer members and null not asserted) -> 0x12; each bounded member one past its limit (documented lossy members excluded) -> 0x12; stray bytes appended after the parameter map -> if rejected at all, one of the three codes; two faults at once - the map reduced to its first j required parameters (with and without its optional members; by itself 0x14) and additionally truncated at every offset / each key duplicated / each head widened or made indefinite / each remaining value replaced by another type -> 0x12, because 0x14 is reserved for an otherwise well-formed map. Plus well-formed requests with one unknown member in a nested map whose value is malformed at the encoding level (each head in turn: reserved additional information, wider form, indefinite form, lying length): if the value skipper rejects it, the status must be 0x12. Plus all 256 command bytes x 4 payload kinds (unassigned/unsupported -> 0x01), and messages lacking a required parameter combined with up to two further structural faults (never accepted; status within the three codes). Every fault case is non-trivial by construction; distinct by (fault class, faulted message bytes). The evaluation count is the number of fault cases executed, not the number of seeds.";
+pub const RULE: &str = "Seeds: for every parameter-bearing command the minimal message (no optional member), the full message (every optional member) and proptest-generated well-formed messages from the C01 generator (known members only, canonical). Every seed is crossed with EVERY single fault of each class, enumerated on the value tree / byte string (no sampling within a seed): removal of each required parameter and required nested member -> 0x14; truncation at every byte offset -> 0x12; each key of each map duplicated (as is, and with null as the first occurrence) -> 0x12; each head re-encoded in each wider width -> 0x12; each string/array/map made indefinite-length -> 0x12; each head given a reserved additional-information value (28..30, and 31 for integers) -> 0x12; each member's value replaced by a representative of every other data type among unsigned/negative/bytes/text/array/map/boolean (sign changes of signed-integer members and null not asserted) -> 0x12; each bounded member one past its limit (documented lossy members excluded) -> 0x12; stray bytes appended after the parameter map -> if rejected at all, one of the three codes; two faults at once - the map reduced to its first j required parameters (with and without its optional members; by itself 0x14) and additionally truncated at every offset / each key duplicated / each head widened or made indefinite / each remaining value replaced by another type -> 0x12, because 0x14 is reserved for an otherwise well-formed map. Plus well-formed requests with one unknown member in a nested map whose value is malformed at the encoding level (each head in turn: reserved additional information, wider form, indefinite form, lying length): if the value skipper rejects it, the status must be 0x12. Plus all 256 command bytes x 4 payload kinds (unassigned/unsupported -> 0x01), and messages lacking a required parameter combined with up to two further structural faults (never accepted; status within the three codes). Every fault case is non-trivial by construction; distinct by (fault class, faulted message bytes). The evaluation count is the number of fault cases executed, not the number of seeds.";
 pub const ASSUMPTIONS: &[&str] = &[
     "required-member and limit tables (reqmodel.rs) transcribe the CTAP specification / the C12 statement",
     "seed messages contain known members only, so every head is interpreted (not skipped) by the decoder",
